@@ -14,8 +14,10 @@ from harness.common import drv, errclass, guarded, impl, run_check
 PID = "C09"
 THEOREMS = ["multseq_sorted_once", "multseq_sound", "multseq_refuses_iff", "multseq_refuses_iff_bases", "chain_to_base",
             "zoom_level_eq_direct", "zoom_levels_eq_chain", "zoom_layout", "specLevel_compose", "coarsenLevel_eq_spec",
-            "expandSpec_int", "expandSpec_list", "mem_binary", "mem_nice", "preferred_bounds"]
-LEVELS = {"zoomify": "top", "columns": "top", "cli": "top", "forms": "top", "sequence": "top", "mixed_dtypes": "top", "multseq": "unit", "preferred": "unit"}
+            "expandSpec_int", "expandSpec_list", "mem_binary", "mem_nice", "preferred_bounds",
+            "legacy_level_eq_direct", "legacy_levels_ok", "legacy_chunk_independent", "legacyBinsizes_get", "clog2_spec",
+            "quadtreeDepth_spec"]
+LEVELS = {"zoomify": "top", "columns": "top", "cli": "top", "forms": "top", "sequence": "top", "mixed_dtypes": "top", "multseq": "unit", "preferred": "unit", "legacy": "top"}
 DESCRIBE = {
     "zoomify": "cooler.zoomify_cooler(bases, out, resolutions, chunksize, nproc): refusal iff Lean `getMultiplierSequence` errs; "
                "`list_coolers(out)` = Lean `listing` (exactly /resolutions/<r> for r in the sorted union), `is_multires_file`; every base "
@@ -35,6 +37,12 @@ DESCRIBE = {
                     "dict ({'w': float64}, columns count+w), bases in both orders, and `cooler zoomify -r ... --field count -i B -o out A` "
                     "in both orders; every level = the Lean level of ITS base: values (x4 for the float base), stored dtype kind, `sum` "
                     "(D27 regression: the dtype inferred for one base must not be applied to levels derived from the other)",
+    "legacy": "the legacy quad-tree producer (`cooler._reduce.legacy_zoomify`, `cooler zoomify --legacy`): depth = Lean `quadtreeDepth` "
+              "(least d with 2^d tiles covering the genome; theorem quadtreeDepth_spec), levels ::n (faithful copy of the base) ... ::0, "
+              "every level k steps below the base = Lean `specLevel (2^k) base` whatever chain of factor-2 steps produced it (theorem "
+              "legacy_level_eq_direct), every level judged by the C02 raw monitor, root attributes max-zoom(s) and level -> bin size = "
+              "Lean `legacyBinsizes`; run with the real tile dimension 256 (bases of 260-1100 bins) and with the module constant "
+              "HIGLASS_TILE_DIM set to 1-4 (small bases, depths up to 4)",
     "multseq": "get_multiplier_sequence(resolutions, bases): raises iff Lean says so (some non-base member has no smaller member "
                "dividing it, equivalently is not a multiple of any base: theorems multseq_refuses_iff / _bases); otherwise its output "
                "satisfies the Lean contract `validMultSeq` and `resn` is the sorted union",
@@ -599,6 +607,72 @@ CHECKS = {"zoomify": _zoomify, "columns": _columns, "cli": _cli, "forms": _forms
           "multseq": _multseq, "preferred": _preferred}
 
 
+def _legacy(case):
+    """legacy_zoomify / `cooler zoomify --legacy`: levels ::n … ::0, each the direct coarsening of the base by 2^k"""
+    import cooler._reduce as red
+    d = gen.tmpdir()
+    tag = _tag()
+    src = os.path.join(d, f"zl-{tag}-src.cool")
+    out = os.path.join(d, f"zl-{tag}-out.mcool")
+    b = case["base"]
+    old = red.HIGLASS_TILE_DIM
+    try:
+        gen.write_cooler(src, b["bins"], b["pixels"], symm=b.get("symm", True))
+        uri = src
+        m = drv().ask("C09.legacy", bins=b["bins"], pixels=b["pixels"], chunksize=case["chunksize"], binsize=b["width"], tile=case["tile"])
+        assert m["base_ok"] and m["l1_agrees"], "theorem legacy_level_eq_direct contradicted / base outside the hypotheses"
+        n = m["depth"]
+        red.HIGLASS_TILE_DIM = case["tile"]
+        if case.get("cli"):
+            from click.testing import CliRunner
+            from cooler.cli import cli
+            r = impl(lambda: CliRunner().invoke(cli, ["zoomify", "--legacy", "-c", str(case["chunksize"]), "-o", out, uri]))
+            if r.exit_code != 0:
+                return {"mismatch": True, "what": "cooler zoomify --legacy failed", "exit": r.exit_code, "output": r.output[-400:],
+                        "exc": repr(r.exception)}
+        else:
+            ret = impl(red.legacy_zoomify, uri, out, case.get("nproc", 1), case["chunksize"])
+            if int(ret[0]) != n:
+                return {"mismatch": True, "what": "number of zoom levels", "impl": int(ret[0]), "model": n, "total_bp": m["total_bp"]}
+        red.HIGLASS_TILE_DIM = old
+        listing = sorted(impl(cooler.fileops.list_coolers, out))
+        want_listing = sorted(f"/{i}" for i in range(n + 1))
+        if listing != want_listing:
+            return {"mismatch": True, "what": "levels present", "impl": listing, "model": want_listing}
+        with h5py.File(out, "r") as f:
+            attrs = {k: (v.tolist() if hasattr(v, "tolist") else v) for k, v in f.attrs.items()}
+        want_attrs = {str(lv): bs for lv, bs in m["binsizes"]}
+        got_attrs = {k: int(v) for k, v in attrs.items() if k.isdigit()}
+        if got_attrs != want_attrs or int(attrs.get("max-zoom", -1)) != n:
+            return {"mismatch": True, "what": "root attributes (level -> bin size, max-zoom)", "impl": attrs, "model": want_attrs, "depth": n}
+        for k, want in enumerate(m["levels"]):
+            lv = n - k
+            v = monitor.violations(out, str(lv))
+            if v:
+                return {"mismatch": True, "level": lv, "what": "schema (C02 monitor)", "violated": v}
+            if k == 0:
+                s_, d_ = _h5_dump(src, "/"), _h5_dump(out, str(lv))
+                if s_ != d_:
+                    diff = sorted(x for x in set(s_) | set(d_) if s_.get(x) != d_.get(x))
+                    return {"mismatch": True, "level": lv, "what": "finest level is not a faithful copy of the base", "differs": diff}
+                continue
+            r = _compare_level(f"{out}::{lv}", want, {"level": lv, "factor": 2 ** k})
+            if r:
+                r["mismatch"] = True
+                r["note"] = "legacy level is not the coarsening of the base by 2^(n - level)"
+                return r
+            bs = impl(lambda: cooler.Cooler(f"{out}::{lv}").binsize)
+            if bs is not None and int(bs) != b["width"] * 2 ** k:
+                return {"mismatch": True, "level": lv, "what": "bin size of the level", "impl": int(bs), "model": b["width"] * 2 ** k}
+        return {"stats": {"legacy_levels": n + 1, f"legacy_depth={n}": 1}}
+    finally:
+        red.HIGLASS_TILE_DIM = old
+        _unlink(out, src)
+
+
+CHECKS["legacy"] = _legacy
+
+
 # ----------------------------------------------------------------------------------------------
 # generators
 # ----------------------------------------------------------------------------------------------
@@ -769,6 +843,28 @@ def cases(tier, rng):
         rng.shuffle(r)
         yield "multseq", {"resolutions": r, "bases_list": bl}
     yield "multseq", {"resolutions": [], "bases_list": [None, [2], [2, 3]]}
+    # legacy quad-tree producer -------------------------------------------------------------------
+    for k in range(60 if thorough else 14):
+        w = rng.randint(1, 3)
+        symm = rng.random() < 0.75
+        if k % 7 == 3:
+            # the real tile dimension: 256 bins per tile, bases of 260..1100 bins (depth 1..3), sparse
+            nb = rng.choice([257, 300, 512, 513, 700, 1025])
+            lengths = [w * (nb - 40) - rng.randint(0, w - 1), w * 40]
+            bins = _fixed_bins(lengths, w)
+            n = len(bins)
+            cells = sorted({(min(i, j), max(i, j)) if symm else (i, j)
+                            for i, j in ((rng.randrange(n), rng.randrange(n)) for _ in range(150))})
+            px = [[i, j, 1 + (i * 7 + j * 3) % 50] for i, j in cells]
+            c = {"base": {"width": w, "bins": bins, "pixels": px, "symm": symm}, "tile": 256, "chunksize": rng.randint(20, 200)}
+        else:
+            tile = rng.randint(1, 4)
+            lengths = [rng.randint(w + 1, 9 * w)] + ([rng.randint(1, 5 * w)] if rng.random() < 0.6 else [])
+            b = _base(rng, lengths, w, symm)
+            c = {"base": b, "tile": tile, "chunksize": rng.randint(1, len(b["pixels"]) + 1)}
+        if k % 3 == 1:
+            c["cli"] = True
+        yield "legacy", c
     for start in range(1, 31 if thorough else 13):
         yield "preferred", {"pairs": [(start, stop) for stop in list(range(0, 60)) + [99, 100, 101, 999, 1000, 5000, 10 ** 6]]}
 
@@ -784,6 +880,8 @@ def nontrivial(name, case):
         return len(case["bases"][0]["pixels"]) >= 2 and (name == "cli" or len(set(case["resolutions"])) >= 1)
     if name == "multseq":
         return len(case["resolutions"]) >= 2
+    if name == "legacy":
+        return len(case["base"]["pixels"]) >= 2
     return True
 
 
